@@ -224,6 +224,8 @@ var checks = map[string]*check{
 			"frozen plugin: bound 45 s (yamux keep-alive 30 s + 10 s, or the 2 s shutdown deadline + 2 s grace)",
 		},
 		Parts: []part{
+			// the plugin prints something and the application's SyncStdout writer cannot take it until Kill has returned
+			{Name: "blocked-sync-writer", Kind: "explore", Scen: "kill_plugin", Inst: inst("sink", "sink"), Depths: depths([]int{0, 1}, []int{0, 1, 2}), Budget: budget(3*time.Minute, 15*time.Minute)},
 			{Name: "sequential", Kind: "explore", Scen: "kill_plugin", Inst: inst("seq", "seq"), Depths: depths([]int{2}, []int{2, 3}), Budget: budget(3*time.Minute, 20*time.Minute)},
 			{Name: "concurrent", Kind: "explore", Scen: "kill_plugin", Inst: inst("conc", "conc-thorough"), Depths: depths([]int{2}, []int{2, 3}), Budget: budget(3*time.Minute, 20*time.Minute)},
 			{Name: "real-processes", Kind: "enum", Bin: "e3.test", Test: "TestC04Proc"},
